@@ -109,6 +109,16 @@ CHECKS = {
         "note": "Trusted: Python ast, E1 resolver, numpy mean/min/argmin/sqrt semantics (uninterpreted).",
         "technique": "static analysis: abstract evaluation to polynomial normal forms + guard dominance on the single moving store; canonical-form equality; call-site wiring rule",
     },
+    "C19": {
+        "text": "Decides, for all shapes, regions, corners, windows and pixel ranges: per read-out corner the set of axes the array is reversed on (followed through views and copies) equals the set of axes whose region index pair is "
+                "reflected, a reflection being exactly (shape[a] - hi, shape[a] - lo), and the four corners cover the four flip combinations - so rotating region and array commute and twice is the identity (axis reversal is an involution); "
+                "front / trailing sub-regions (parallel, serial, 1-D; pixels and from-end modes) have the stated extents by canonical-form equality (front from the lower edge, trailing from the upper edge, from-end = the last E rows/columns "
+                "of the right axis, other axis copied); Region1D/2D reject negative components and lo >= hi per axis; the interval clipping x0x1_after_extraction is decided EXHAUSTIVELY over the finite domain of the 13 weak orderings of its "
+                "four inputs (every comparison is a difference of two inputs, so the path is a function of the ordering; the symbolic result per ordering equals the overlap shifted into window coordinates, absent when empty); the 2-D "
+                "wrapper clips rows with components (0,1) and columns with (2,3) of both regions. Not decided: numpy slicing itself.",
+        "note": "Trusted: Python ast, E1 resolver, numpy slicing with step -1 reverses an axis, valid inputs satisfy lo < hi (enforced by the Region constructors, which are checked).",
+        "technique": "static analysis: abstract evaluation of class-layer methods to canonical forms; sibling agreement between array flips and region reflections; exhaustive abstract interpretation over a finite order domain",
+    },
 }
 
 NOT_APPLICABLE = {f"C{n:02d}": PENDING for n in range(1, 21) if f"C{n:02d}" not in CHECKS}
